@@ -72,6 +72,8 @@ type NodeRT struct {
 	// SelfCloseAt-th callback (the "watch until X, then stop" pattern)
 	NoInit      bool // the monitor's handler registers no OnInitialize
 	hslot       *handlerSlot
+	keptInit    []metav1.Object // the slice OnInitialize was handed, kept by the handler
+	keptIDs     []string
 	hval        kcache.Handler
 	sf          *StatefulFilter
 	BeforeTraffic bool // created before anything was written to the server after its initial content
@@ -104,6 +106,7 @@ type H struct {
 	Nodes  []*NodeRT
 
 	RootFilter FilterSpec
+	KeepInitAlways bool // every handler keeps the list OnInitialize handed it
 	RootSwitch bool // the root filter is a stateful user object (FlipRoot changes what it accepts)
 	rootSF     *StatefulFilter
 	RootPred   func(Spec) bool
@@ -668,6 +671,22 @@ func (h *H) handler(first *NodeRT) kcache.Handler {
 	return hv
 }
 
+// CheckKeptInit: the slice a handler was given in OnInitialize and kept is
+// still what it was (nobody else writes to it, whatever is listed later).
+func (n *NodeRT) CheckKeptInit() {
+	if n.keptInit == nil {
+		return
+	}
+	for _, o := range n.keptInit {
+		if o == nil {
+			detsim.Fail("monitor-init-slice-changed", "%s: the list its handler was given in OnInitialize and kept now has a nil element (its storage was handed to somebody else)\n  at the callback: %v", n.Name(), n.keptIDs)
+		}
+	}
+	if now := IDs(n.keptInit); !SameIDs(now, n.keptIDs) {
+		detsim.Fail("monitor-init-slice-changed", "%s: the list its handler was given in OnInitialize changed after the callback returned (its storage was handed to somebody else)\n  at the callback: %v\n  now            : %v", n.Name(), n.keptIDs, now)
+	}
+}
+
 // userHandler: a Handler implemented by the application.
 type userHandler struct {
 	inner kcache.Handler
@@ -686,6 +705,7 @@ func (h *H) handlerFor(slot *handlerSlot) kcache.Handler {
 	n := slot.n // (only read where the handler is BUILT; callbacks go through the slot)
 	enter := func(kind string, objs []Spec) int {
 		n := slot.n
+		n.CheckKeptInit()
 		if n.monBusy {
 			detsim.Fail("monitor-concurrent-callback", "%s: callback %s entered while another callback is executing", n.Name(), kind)
 		}
@@ -777,7 +797,13 @@ func (h *H) handlerFor(slot *handlerSlot) kcache.Handler {
 					detsim.Fail("monitor-init-wrong-content", "%s: OnInitialize was handed a list with a nil element (a slice shared with another consumer)", n.Name())
 				}
 			}
-			Scribble(objs) // the list handed to OnInitialize is the handler's own
+			if n.ID%2 == 0 && !h.KeepInitAlways {
+				Scribble(objs) // the list handed to OnInitialize is the handler's own
+			} else {
+				// ... and it stays the handler's own after the callback has returned
+				n.keptInit, n.keptIDs = objs, IDs(objs)
+				detsim.Count("probe:handler-keeps-its-initial-list")
+			}
 			exit(enter("init", specs))
 		}).
 		OnCreate(one("create")).
@@ -912,6 +938,14 @@ func (h *H) alive(n *NodeRT) bool {
 // parent, and every mirror equals the cache it replays.
 func (h *H) CheckTree(prefix string) {
 	h.SeedMirrors()
+	for _, n := range h.Nodes {
+		n.CheckKeptInit()
+	}
+	defer func() {
+		for _, n := range h.Nodes {
+			n.CheckKeptInit()
+		}
+	}()
 	for _, n := range h.Nodes {
 		if n.Mon != nil || !h.alive(n) {
 			continue
